@@ -29,15 +29,38 @@ RULES = {
     "(many ping intervals) after taking the first or second item: every yielded event must still arrive once, in order",
     "wsgi": "the same through baize.wsgi.SendEventResponse and the WSGI gateway (real relay thread; a labelled minority of cases "
     "sleeps past a 20 ms ping interval)",
+    "asgi_slow": "enumerated: 2..8 events that are ready at once (or arrive in bursts after an idle phase) through baize.asgi.SendEventResponse while "
+    "every send() of the server takes 0.25..3.25 ping intervals of virtual time (slow client): every yielded event must arrive once, in order",
+    "iterables": "enumerated: the event source is every kind of Iterable / AsyncIterable the constructor is typed for - generator, list, tuple, deque, "
+    "list iterator, map object, a re-iterable object whose __iter__ / __aiter__ returns a separate iterator, an iterator object without close()/aclose() - "
+    "with and without producer delays beyond the ping interval; also the constructor defaults (no charset= / ping_interval=)",
+    "concurrent": "enumerated: 2, 3 and 12 event streams open at the same time (ASGI: gathered on one virtual-time loop, with different delays, charsets and "
+    "slow clients; WSGI: consumed in alternation, 12 streams exceed the 10 relay threads of the shared pool): each client receives exactly its own events",
+    "fields": "exhaustive: every separator-like / blank / colon / control code point at the start, middle and end of an event name and of an id, "
+    "followed by a ping and a second event (id persists, type resets)",
+    "text": "enumerated: data, event names and ids made of text that is sensitive to Unicode normalisation, case mapping or trimming (decomposed accents, "
+    "compatibility characters, Hangul jamo, zero-width and bidi controls, C1 controls, non-characters, astral planes, exotic blanks at either end), in "
+    "every position of a multi-line data and in each of 9 ASCII-compatible charsets that can encode it",
+    "same_dict": "enumerated: a producer that yields the SAME dict object 2..4 times - in a row, interleaved with other events, with pings in between, "
+    "as a list / tuple holding one dict several times, as generator or iterator object, with a slow client - through the helper and both interfaces: "
+    "every yield arrives as a full event and the caller's dicts are unchanged afterwards (the last clause is judged in every sub-check)",
+    "big": "enumerated: data of 257..5000 lines (LF, CR, CRLF mixed, empty lines), single lines of 8 193..200 000 characters, and streams of 60 events "
+    "through both gateways",
 }
 ASSUMPTIONS = [
     "a trailing line terminator of data may or may not yield a final empty line",
     "an event without data (or with data == '') dispatches nothing under the standard; one event with empty data is accepted as well; "
     "its id/retry still take effect for later events",
     "event names and ids are single-line (no CR/LF) and contain no NUL",
+    "the dicts a producer yields are the producer's: it may yield one dict object several times (each yield is an event of its own) and "
+    "finds its dicts unchanged after the stream (repaired in /repo e2d6a7d; before, the second copy went out without data)",
+    "charsets are ASCII-compatible and stateless (utf-8, latin-1, cp1252, koi8-r, gbk, gb18030, big5, shift_jis, euc-jp)",
+    "filler between events consists of comment lines only: a block of field lines without data is accepted only where a yielded event had "
+    "fields and no data",
 ]
 
-SEPS = ["\r", "\n", "\r\n", "\x0b", "\x0c", "\x1c", "\x1d", "\x1e", "\x85", " ", " "]
+# U+2028 / U+2029 are written as escapes: an editor had once turned the literal characters into blanks
+SEPS = ["\r", "\n", "\r\n", "\x0b", "\x0c", "\x1c", "\x1d", "\x1e", "\x85", "\u2028", "\u2029"]
 PING = b": ping\n\n"
 
 
@@ -46,6 +69,11 @@ def encodable(s: str, charset: str) -> bool:
         return s.encode(charset).decode(charset) == s
     except (UnicodeEncodeError, UnicodeDecodeError):
         return False
+
+
+def short(x, limit: int = 500) -> str:
+    t = repr(x)
+    return t if len(t) <= limit else t[:limit] + f"... ({len(t)} chars)"
 
 
 def expected_stream(events):
@@ -109,20 +137,45 @@ def match(expected, actual):
     return f"{len(actual) - j} extra dispatched event(s): {actual[j:]!r}"
 
 
+def field_only_blocks(text: str):
+    """Blocks of the stream (maximal runs of non-blank lines) that hold at least one field line (anything that is
+    not a comment) but no data line.  The standard's parser dispatches nothing for them."""
+    if text.startswith("\ufeff"):
+        text = text[1:]
+    out, cur = [], []
+    for line in ref.split_lines(text):
+        if line == "":
+            if cur and "data" not in [f for f, _ in cur]:
+                out.append(cur)
+            cur = []
+        elif not line.startswith(":"):
+            cur.append((line.partition(":")[0], line))
+    if cur and "data" not in [f for f, _ in cur]:
+        out.append(cur)
+    return out
+
+
 def judge(r: Result, where: str, events, charset, body: bytes) -> None:
     try:
         text = body.decode(charset)
     except UnicodeDecodeError as exc:
-        r.fail(f"C19:{where}:undecodable", f"body {body!r} not decodable as {charset}: {exc}")
+        r.fail(f"C19:{where}:undecodable", f"body {body[:300]!r} not decodable as {charset}: {exc}")
         return
     actual = ref.parse(text)
+    # keep-alive filler must be comment lines: blocks of field lines that dispatch nothing are attributable only to
+    # yielded events that had fields and no data
+    allowed = sum(1 for ev in events if ev.get("data") in (None, "") and any(k != "data" for k in ev))
+    filler = field_only_blocks(text)
+    if len(filler) > allowed:
+        r.fail(f"C19:{where}:non-comment-filler", f"charset {charset}, events {short(events)}: {len(filler)} block(s) of field lines without data "
+               f"({[ln for blk in filler for _, ln in blk][:6]!r}) but only {allowed} yielded event(s) without data; wire {body[:600]!r}")
     problem = match(expected_stream(events), actual)
     if problem:
         kind = "data"
-        seps = {ch for ev in events for ch in str(ev.get("data", "")) if ch in "\x0b\x0c\x1c\x1d\x1e\x85  "}
+        seps = {ch for ev in events for ch in str(ev.get("data", "")) if ch in "\x0b\x0c\x1c\x1d\x1e\x85\u2028\u2029"}
         if seps:
             kind = "unicode-line-separator"
-        r.fail(f"C19:{where}:{kind}", f"charset {charset}, events {events!r}: {problem}; wire {body!r}")
+        r.fail(f"C19:{where}:{kind}", f"charset {charset}, events {short(events)}: {problem[:900]}; wire {body[:600]!r}")
 
 
 def classify(r: Result, events, charset) -> None:
@@ -139,16 +192,46 @@ def classify(r: Result, events, charset) -> None:
         r.label("has-separator")
 
 
-def copy_events(events):
-    return [dict(ev) for ev in events]
+def make_events(case):
+    """The event objects handed to the code under test.  Every element is a fresh dict, except where the case says
+    same_as[k] = j < k: then the k-th yielded object IS the j-th one (a producer that keeps one dict and yields it again;
+    the case lists the same content at both places)."""
+    events, same_as = case["events"], case.get("same_as")
+    objs = []
+    for k, ev in enumerate(events):
+        j = same_as[k] if same_as else k
+        if j == k:
+            objs.append(dict(ev))
+        else:
+            if not (0 <= j < k) or events[j] != ev:
+                raise core.HarnessError(f"bad same_as in case: {case!r}")
+            objs.append(objs[j])
+    return objs
+
+
+def check_untouched(r: Result, where: str, case, objs) -> None:
+    """The dicts belong to the caller: after the stream they must still be what the producer yielded."""
+    for k, (obj, ev) in enumerate(zip(objs, case["events"])):
+        if obj != ev:
+            r.fail(f"C19:{where}:caller-dict-changed", f"event object #{k} was {ev!r} when yielded and is {obj!r} afterwards; case {short(case)}")
+            return
+
+
+def label_same(r: Result, case) -> None:
+    same_as = case.get("same_as")
+    if same_as and any(j != k for k, j in enumerate(same_as)):
+        r.label("same-dict-yielded-again")
+        r.nontrivial = True
 
 
 def oracle_block(case) -> Result:
     r = Result()
     events, charset = case["events"], case["charset"]
     classify(r, events, charset)
+    label_same(r, case)
     chunks = []
-    for i, ev in enumerate(copy_events(events)):
+    objs = make_events(case)
+    for i, ev in enumerate(objs):
         blk = build_bytes_from_sse(ev, charset)
         if type(blk) is not bytes:
             r.fail("C19:block:not-bytes", f"{type(blk).__name__}")
@@ -157,6 +240,7 @@ def oracle_block(case) -> Result:
         if case.get("pings") and i in case["pings"]:
             chunks.append(PING)
     judge(r, "block", events, charset, b"".join(chunks))
+    check_untouched(r, "block", case, objs)
     return r
 
 
@@ -179,84 +263,336 @@ def _ctor_extras(case):
     return kw
 
 
-def oracle_asgi(case) -> Result:
-    r = Result()
-    events, charset, delays, ping = case["events"], case["charset"], case["delays"], case["ping"]
-    classify(r, events, charset)
+# -- event sources --------------------------------------------------------------------------
+# The constructors are typed Iterable[ServerSentEvent] / AsyncIterable[ServerSentEvent]: every kind of iterable is a
+# legitimate source, not only generators.
 
-    async def producer():
-        for ev, d in zip(copy_events(events), delays):
-            if d:
-                await asyncio.sleep(d)
-            yield ev
-        if case.get("tail_delay"):
-            await asyncio.sleep(case["tail_delay"])
+SYNC_KINDS = ["gen", "list", "tuple", "deque", "iter", "map", "iterable", "iterator"]
+ASYNC_KINDS = ["agen", "aiterable", "aiterator"]
 
-    async def main():
-        resp = basgi.SendEventResponse(producer(), ping_interval=ping, charset=charset, **_ctor_extras(case))
-        return await gw.run_asgi(resp, gw.make_scope(gw.areq()))
 
-    try:
-        run, _loop = vtime.run_virtual(main)
-    except vtime.Hang as exc:
-        r.fail("C19:asgi:hang", f"{case!r}: {exc}")
-        return r
+class _SyncIterator:
+    """Iterator object without close()."""
+
+    def __init__(self, events, delays, tail_delay=0):
+        self._evs, self._delays, self._tail, self._k = events, list(delays), tail_delay, 0
+
+    def __iter__(self):
+        return self
+
+    def __next__(self):
+        if self._k >= len(self._evs):
+            if self._tail:
+                time.sleep(self._tail)
+                self._tail = 0
+            raise StopIteration
+        d = self._delays[self._k] if self._k < len(self._delays) else 0
+        if d:
+            time.sleep(d)
+        ev = self._evs[self._k]
+        self._k += 1
+        return ev
+
+
+class _SyncIterable:
+    """Re-iterable object: __iter__ hands out a separate iterator; it is not an iterator itself."""
+
+    def __init__(self, events, delays, tail_delay=0):
+        self._args = (events, delays, tail_delay)
+
+    def __iter__(self):
+        return _SyncIterator(*self._args)
+
+
+class _AsyncIterator:
+    """Asynchronous iterator object without aclose()."""
+
+    def __init__(self, events, delays, tail_delay=0):
+        self._evs, self._delays, self._tail, self._k = events, list(delays), tail_delay, 0
+
+    def __aiter__(self):
+        return self
+
+    async def __anext__(self):
+        if self._k >= len(self._evs):
+            if self._tail:
+                await asyncio.sleep(self._tail)
+                self._tail = 0
+            raise StopAsyncIteration
+        d = self._delays[self._k] if self._k < len(self._delays) else 0
+        if d:
+            await asyncio.sleep(d)
+        ev = self._evs[self._k]
+        self._k += 1
+        return ev
+
+
+class _AsyncIterable:
+    """Asynchronous iterable whose __aiter__ hands out a separate iterator; it has no __anext__ itself."""
+
+    def __init__(self, events, delays, tail_delay=0):
+        self._args = (events, delays, tail_delay)
+
+    def __aiter__(self):
+        return _AsyncIterator(*self._args)
+
+
+def _same(x):
+    return x
+
+
+def sync_source(kind, evs, delays, tail_delay=0):
+    if kind == "gen":
+
+        def producer():
+            for ev, d in zip(evs, delays):
+                if d:
+                    time.sleep(d)
+                yield ev
+            if tail_delay:
+                time.sleep(tail_delay)
+
+        return producer()
+    if kind == "iterable":
+        return _SyncIterable(evs, delays, tail_delay)
+    if kind == "iterator":
+        return _SyncIterator(evs, delays, tail_delay)
+    # plain containers / built-in iterators cannot wait
+    if kind == "list":
+        return evs
+    if kind == "tuple":
+        return tuple(evs)
+    if kind == "deque":
+        import collections
+
+        return collections.deque(evs)
+    if kind == "iter":
+        return iter(evs)
+    if kind == "map":
+        return map(_same, evs)
+    raise core.HarnessError(f"unknown source kind {kind!r}")
+
+
+def async_source(kind, evs, delays, tail_delay=0):
+    if kind == "agen":
+
+        async def producer():
+            for ev, d in zip(evs, delays):
+                if d:
+                    await asyncio.sleep(d)
+                yield ev
+            if tail_delay:
+                await asyncio.sleep(tail_delay)
+
+        return producer()
+    if kind == "aiterable":
+        return _AsyncIterable(evs, delays, tail_delay)
+    if kind == "aiterator":
+        return _AsyncIterator(evs, delays, tail_delay)
+    raise core.HarnessError(f"unknown source kind {kind!r}")
+
+
+def _response_kwargs(case):
+    """defaults=True: the constructor is called without ping_interval= / charset= (documented defaults 3 s / utf-8)."""
+    if case.get("defaults"):
+        if case["charset"] != "utf-8":
+            raise core.HarnessError("a defaults case must expect utf-8")
+        return _ctor_extras(case)
+    return {"ping_interval": case["ping"], "charset": case["charset"], **_ctor_extras(case)}
+
+
+async def _asgi_stream(case):
+    """One event stream through the ASGI gateway (on the running, virtual-time loop); returns (run, event objects)."""
+    objs = make_events(case)
+    resp = basgi.SendEventResponse(async_source(case.get("source", "agen"), objs, case["delays"], case.get("tail_delay", 0)), **_response_kwargs(case))
+    run = await gw.run_asgi(resp, gw.make_scope(gw.areq()), send_delay=case.get("send_delay", 0))
+    return run, objs
+
+
+def _judge_asgi_run(r: Result, case, run_objs) -> None:
+    run, objs = run_objs
+    events, charset = case["events"], case["charset"]
+    check_untouched(r, "asgi", case, objs)
     if run.exc is not None:
-        r.fail(f"C19:asgi:raised:{type(run.exc).__name__}", f"{case!r}: {run.exc!r}")
-        return r
+        r.fail(f"C19:asgi:raised:{type(run.exc).__name__}", f"{short(case)}: {run.exc!r}")
+        return
     if run.errors or not run.complete:
-        r.fail("C19:asgi:protocol", f"{case!r}: {run.errors!r} complete={run.complete}")
+        r.fail("C19:asgi:protocol", f"{short(case)}: {run.errors!r} complete={run.complete}")
     pings = sum(1 for c in run.chunks if c == PING)
     if pings:
         r.label("pings-interleaved")
         r.nontrivial = True
     check_headers(r, "asgi", run.get, charset)
     judge(r, "asgi", events, charset, run.body)
+
+
+def _flow_labels(r: Result, case) -> None:
+    if case.get("source") not in (None, "gen", "agen"):
+        r.label(f"source={case['source']}")
+        r.nontrivial = True
+    if case.get("defaults"):
+        r.label("ctor-defaults")
+    if case.get("send_delay"):
+        r.label("slow-client")
+        r.nontrivial = True
+    label_same(r, case)
+
+
+def oracle_asgi(case) -> Result:
+    r = Result()
+    classify(r, case["events"], case["charset"])
+    _flow_labels(r, case)
+
+    async def main():
+        return await _asgi_stream(case)
+
+    try:
+        run, _loop = vtime.run_virtual(main)
+    except vtime.Hang as exc:
+        r.fail("C19:asgi:hang", f"{short(case)}: {exc}")
+        return r
+    _judge_asgi_run(r, case, run)
     return r
 
 
-def oracle_wsgi(case) -> Result:
-    r = Result()
-    events, charset, delays, ping = case["events"], case["charset"], case["delays"], case["ping"]
-    classify(r, events, charset)
-
-    def producer():
-        for ev, d in zip(copy_events(events), delays):
-            if d:
-                time.sleep(d)
-            yield ev
-
-    resp = bwsgi.SendEventResponse(producer(), ping_interval=ping, charset=charset, **_ctor_extras(case))
-    stalls = {int(k): v for k, v in (case.get("stalls") or {}).items()}
-    run = gw.run_wsgi(resp, gw.make_environ(gw.areq()), stall_after=stalls or None)
-    if stalls:
-        r.label("slow-client")
-        r.nontrivial = True
+def _judge_wsgi_run(r: Result, case, run, objs) -> None:
+    events, charset = case["events"], case["charset"]
+    check_untouched(r, "wsgi", case, objs)
     if run.exc is not None:
-        r.fail(f"C19:wsgi:raised:{type(run.exc).__name__}", f"{case!r}: {run.exc!r}")
-        return r
+        r.fail(f"C19:wsgi:raised:{type(run.exc).__name__}", f"{short(case)}: {run.exc!r}")
+        return
     if run.errors:
-        r.fail("C19:wsgi:protocol", f"{case!r}: {run.errors!r}")
+        r.fail("C19:wsgi:protocol", f"{short(case)}: {run.errors!r}")
     pings = sum(1 for c in run.chunks if c == PING)
     if pings:
         r.label("pings-interleaved")
         r.nontrivial = True
     check_headers(r, "wsgi", run.get, charset)
     judge(r, "wsgi", events, charset, run.body)
+
+
+def oracle_wsgi(case) -> Result:
+    r = Result()
+    classify(r, case["events"], case["charset"])
+    _flow_labels(r, case)
+    objs = make_events(case)
+    resp = bwsgi.SendEventResponse(sync_source(case.get("source", "gen"), objs, case["delays"], case.get("tail_delay", 0)), **_response_kwargs(case))
+    stalls = {int(k): v for k, v in (case.get("stalls") or {}).items()}
+    run = gw.run_wsgi(resp, gw.make_environ(gw.areq()), stall_after=stalls or None)
+    if stalls:
+        r.label("slow-client")
+        r.nontrivial = True
+    _judge_wsgi_run(r, case, run, objs)
     return r
 
 
-SUBS = {"block": oracle_block, "sep": oracle_block, "asgi": oracle_asgi, "wsgi": oracle_wsgi, "wsgi_ping": oracle_wsgi, "wsgi_slow": oracle_wsgi}
+def oracle_flow(case) -> Result:
+    """Enumerated flow cases that name their side."""
+    return oracle_asgi(case) if case["side"] == "asgi" else oracle_wsgi(case)
+
+
+def oracle_any(case) -> Result:
+    return oracle_flow(case) if "side" in case else oracle_block(case)
+
+
+# -- several streams at the same time --------------------------------------------------------
+
+MAX_CHUNKS = 400  # per stream; far above anything a finite case can produce (events + a ping per 20 ms of waiting)
+
+
+def _concurrent_asgi(r: Result, case) -> None:
+    streams = [dict(st_, ping=st_.get("ping", case["ping"])) for st_ in case["streams"]]
+
+    async def main():
+        return await asyncio.gather(*[_asgi_stream(st_) for st_ in streams])
+
+    try:
+        runs, _loop = vtime.run_virtual(main)
+    except vtime.Hang as exc:
+        r.fail("C19:asgi:hang", f"{short(case)}: {exc}")
+        return
+    for st_, run in zip(streams, runs):
+        _judge_asgi_run(r, st_, run)
+
+
+def _concurrent_wsgi(r: Result, case) -> None:
+    """The streams are consumed in alternation by one server thread: one next() on each open stream per round - an
+    interleaving that a threaded server can produce.  Each next() returns after at most one ping interval."""
+    streams = [dict(st_, ping=st_.get("ping", case["ping"])) for st_ in case["streams"]]
+    runs, iters, results, all_objs = [], [], [], []
+    for st_ in streams:
+        run = gw.WsgiRun()
+
+        def start_response(status, headers, exc_info=None, run=run):
+            run.start_calls += 1
+            gw.validate_wsgi_start(run, status, headers)
+            run.headers = [(str(k), str(v)) for k, v in headers]
+
+        objs = make_events(st_)
+        all_objs.append(objs)
+        resp = bwsgi.SendEventResponse(sync_source(st_.get("source", "gen"), objs, st_["delays"], st_.get("tail_delay", 0)), **_response_kwargs(st_))
+        result = resp(gw.make_environ(gw.areq()), start_response)
+        runs.append(run)
+        results.append(result)
+        iters.append(iter(result))
+    open_ = list(range(len(streams)))
+    try:
+        while open_:
+            for k in list(open_):
+                try:
+                    item = next(iters[k])
+                except StopIteration:
+                    open_.remove(k)
+                    continue
+                except Exception as exc:  # noqa: BLE001 - reported as a failure of this stream, as gw.run_wsgi does
+                    runs[k].exc = exc
+                    open_.remove(k)
+                    continue
+                runs[k].items += 1
+                if type(item) is not bytes:
+                    runs[k].err("item-type", f"yielded {type(item).__name__}, not bytes")
+                    item = b""
+                runs[k].chunks.append(item)
+                if runs[k].items > MAX_CHUNKS:
+                    runs[k].err("runaway", f"more than {MAX_CHUNKS} chunks for {len(streams[k]['events'])} events")
+                    open_.remove(k)
+    finally:
+        for k, result in enumerate(results):
+            close = getattr(result, "close", None)
+            if close is not None:
+                try:
+                    close()
+                except Exception as exc:  # noqa: BLE001 - likewise
+                    if runs[k].exc is None:
+                        runs[k].exc = exc
+    for st_, run, objs in zip(streams, runs, all_objs):
+        _judge_wsgi_run(r, st_, run, objs)
+
+
+def oracle_concurrent(case) -> Result:
+    r = Result()
+    r.weight = len(case["streams"])
+    r.nontrivial = True
+    r.label(f"side={case['side']}", f"streams={len(case['streams'])}")
+    if case["side"] == "asgi":
+        _concurrent_asgi(r, case)
+    else:
+        _concurrent_wsgi(r, case)
+    return r
+
+
+SUBS = {"block": oracle_block, "sep": oracle_block, "asgi": oracle_asgi, "wsgi": oracle_wsgi, "wsgi_ping": oracle_wsgi, "wsgi_slow": oracle_wsgi,
+        "asgi_slow": oracle_asgi, "iterables": oracle_flow, "concurrent": oracle_concurrent, "fields": oracle_block, "text": oracle_block, "big": oracle_any, "same_dict": oracle_any}
 
 # ------------------------------------------------------------------------------------------
 
 _piece = st.one_of(
-    st.sampled_from(SEPS + ["\n\n", "\r\r", "\n\r", " ", "  ", ":", ": ", "data: x", "event: hack", "id: 9", "", "a", "b", "xyz", "{\"k\": \"v\"}", "\t", "é", "中", "\U0001f600", "﻿", "\x7f", "0"]),
+    st.sampled_from(SEPS + ["\n\n", "\r\r", "\n\r", " ", "  ", ":", ": ", "data: x", "event: hack", "id: 9", "", "a", "b", "xyz", "{\"k\": \"v\"}", "{\"k\": \"a\u2028b\u2029\"}", "\t", "é", "中", "\U0001f600", "﻿", "\x7f", "0"]),
     st.text(max_size=4),
 )
 _data = st.lists(_piece, max_size=7).map("".join)
 _single = st.one_of(
-    st.sampled_from(["", "message", "update", " lead", "trail ", ":colon", "a:b", "é", "中", "x y", "ping", "0", " ", "\x0b", "\x85"]),
+    st.sampled_from(["", "message", "update", " lead", "trail ", ":colon", "a:b", "é", "中", "x y", "ping", "0", " ", "\x0b", "\x85", "\u2028", "a\u2029b"]),
     st.text(alphabet=st.characters(exclude_characters="\r\n\x00", exclude_categories=["Cs"]), max_size=5),
 )
 
@@ -280,15 +616,32 @@ def event_strategy(draw, charset):
 
 
 @st.composite
+def yield_again(draw, events):
+    """Drawn option: some of the dicts are yielded again later (same object).  Returns (events, same_as)."""
+    if draw(st.integers(0, 3)) != 0:
+        return events, None
+    order = list(range(len(events)))
+    for _ in range(draw(st.integers(1, 3))):
+        idx = draw(st.integers(0, len(events) - 1))
+        pos = draw(st.integers(order.index(idx) + 1, len(order)))
+        order.insert(pos, idx)
+    return [dict(events[i]) for i in order], [order.index(i) for i in order]
+
+
+@st.composite
 def block_case(draw):
     charset = draw(st.sampled_from(["utf-8", "utf-8", "latin-1", "gbk", "shift_jis"]))
     events = draw(st.lists(event_strategy(charset), min_size=1, max_size=5))
-    pings = draw(st.lists(st.integers(0, 4), max_size=3, unique=True))
-    return {"events": events, "charset": charset, "pings": pings}
+    events, same_as = draw(yield_again(events))
+    pings = draw(st.lists(st.integers(0, len(events) - 1), max_size=3, unique=True))
+    case = {"events": events, "charset": charset, "pings": pings}
+    if same_as:
+        case["same_as"] = same_as
+    return case
 
 
 def sep_cases():
-    specials = ["\r", "\n", "\r\n", "\x0b", "\x0c", "\x1c", "\x1d", "\x1e", "\x85", " ", " ", "\t", "\x00", "﻿", " ", ":", "\x1f", "\x7f", "\xa0"]
+    specials = ["\r", "\n", "\r\n", "\x0b", "\x0c", "\x1c", "\x1d", "\x1e", "\x85", "\u2028", "\u2029", "\t", "\x00", "\ufeff", " ", ":", "\x1f", "\x7f", "\xa0"]
     for s in specials:
         for data in (s, s + "a", "a" + s, "a" + s + "b", s + s, "a" + s + s + "b", s + "a" + s):
             yield {"events": [{"data": data}], "charset": "utf-8", "pings": []}
@@ -305,22 +658,35 @@ def sep_cases():
 def flow_case(draw, side):
     charset = draw(st.sampled_from(["utf-8", "utf-8", "latin-1", "gbk"]))
     events = draw(st.lists(event_strategy(charset), min_size=1, max_size=5))
+    events, same_as = draw(yield_again(events))
     extras = {"headers": draw(st.sampled_from([None, None, {}, {"x-extra": "1"}, {"X-Accel-Buffering": "no", "x-b": "2"}])), "status": draw(st.sampled_from([None, None, 200, 201]))}
+    if same_as:
+        extras["same_as"] = same_as
     if side == "asgi":
         ping = draw(st.sampled_from([0.5, 1.0, 3.0]))
         delays = [draw(st.sampled_from([0, 0, 0.25, ping, ping * 1.5, ping * 2.25])) for _ in events]
-        return {"events": events, "charset": charset, "delays": delays, "ping": ping, "tail_delay": draw(st.sampled_from([0, ping * 1.5])), **extras}
-    return {"events": events, "charset": charset, "delays": [0 for _ in events], "ping": 30, **extras}
+        case = {"events": events, "charset": charset, "delays": delays, "ping": ping, "tail_delay": draw(st.sampled_from([0, ping * 1.5])), **extras}
+        case["source"] = draw(st.sampled_from(["agen", "agen", "agen"] + ASYNC_KINDS))
+        case["send_delay"] = draw(st.sampled_from([0, 0, 0, 0.25, ping, ping * 1.25, ping * 2.5]))
+        return case
+    case = {"events": events, "charset": charset, "delays": [0 for _ in events], "ping": 30, **extras}
+    case["source"] = draw(st.sampled_from(["gen", "gen", "gen"] + SYNC_KINDS))
+    return case
 
 
 @st.composite
 def wsgi_ping_case(draw):
-    charset = "utf-8"
+    charset = draw(st.sampled_from(["utf-8", "utf-8", "latin-1", "gbk"]))
     events = draw(st.lists(event_strategy(charset), min_size=1, max_size=3))
-    delays = [draw(st.sampled_from([0, 0.05])) for _ in events]
-    if not any(delays):
+    events, same_as = draw(yield_again(events))
+    delays = [draw(st.sampled_from([0, 0.05])) if k < 3 else 0 for k in range(len(events))]
+    tail = draw(st.sampled_from([0, 0, 0.05]))
+    if not any(delays) and not tail:
         delays[0] = 0.05
-    return {"events": events, "charset": charset, "delays": delays, "ping": 0.02}
+    case = {"events": events, "charset": charset, "delays": delays, "ping": 0.02, "tail_delay": tail, "source": draw(st.sampled_from(["gen", "gen", "iterable", "iterator"]))}
+    if same_as:
+        case["same_as"] = same_as
+    return case
 
 
 def slow_client_cases():
@@ -332,8 +698,157 @@ def slow_client_cases():
     yield {"events": [{"data": f"e{i}"} for i in range(6)], "charset": "utf-8", "delays": [0, 0, 0.05, 0, 0, 0], "ping": 0.02, "stalls": {"1": 0.15, "3": 0.15}}
 
 
+def asgi_slow_cases():
+    """The producer is ahead of a client whose connection takes the server many ping intervals per write (virtual time)."""
+    ping = 1.0
+    for n in (2, 3, 5, 8):
+        for send_delay in (0.25, 1.0, 1.5, 2.5, 3.25):
+            yield {"events": [{"id": str(i), "data": f"event-{i}"} for i in range(n)], "charset": "utf-8", "delays": [0] * n, "ping": ping, "send_delay": send_delay}
+    for send_delay in (1.0, 1.25, 2.5):
+        for source in ASYNC_KINDS:
+            # idle, then a burst of three, idle, then two more; the producer ends one and a half ping intervals later
+            yield {"events": [{"data": f"e{i}"} for i in range(6)], "charset": "utf-8", "delays": [0, 1.5, 0, 0, 2.25, 0], "ping": ping, "send_delay": send_delay,
+                   "tail_delay": 1.5, "source": source}
+    yield {"events": [{"event": "\xe9", "data": "a\r\nb"}, {"retry": 7}, {"data": "\u2028"}, {}, {"id": "z", "data": " x"}], "charset": "utf-8",
+           "delays": [0, 0, 0, 0, 0], "ping": 0.5, "send_delay": 1.25}
+
+
+_SOURCE_EVENTS = [
+    [{"id": "1", "data": "one"}, {"event": "e", "data": "two\nlines"}, {"data": "three"}],
+    [{}, {"data": "after-empty"}, {"retry": 5}, {"id": "9"}, {"data": "last"}],
+    [{"data": "only"}],
+    [],
+]
+
+
+def iterable_cases():
+    for side, kinds in (("wsgi", SYNC_KINDS), ("asgi", ASYNC_KINDS)):
+        for kind in kinds:
+            for events in _SOURCE_EVENTS:
+                yield {"side": side, "source": kind, "events": events, "charset": "utf-8", "delays": [0] * len(events), "ping": 30}
+            yield {"side": side, "source": kind, "events": _SOURCE_EVENTS[0], "charset": "gbk", "delays": [0, 0, 0], "ping": 30, "defaults": False, "headers": {"x-extra": "1"}}
+            if kind in ("gen", "iterable", "iterator", "agen", "aiterable", "aiterator"):
+                # sources that can make the relay wait: pings before, between and after the events
+                unit = 0.05 if side == "wsgi" else 1.5
+                yield {"side": side, "source": kind, "events": _SOURCE_EVENTS[0], "charset": "utf-8", "delays": [unit, 0, unit], "ping": unit * 0.4, "tail_delay": unit}
+            yield {"side": side, "source": kind, "events": _SOURCE_EVENTS[0], "charset": "utf-8", "delays": [0, 0, 0], "ping": 3, "defaults": True}
+
+
+def concurrent_cases():
+    def evs(tag, n, **extra):
+        return [{"id": f"{tag}{i}", "data": f"{tag}-event-{i}", **extra} for i in range(n)]
+
+    for side in ("asgi", "wsgi"):
+        unit = 1.0 if side == "asgi" else 0.02
+        for n_streams in (2, 3):
+            for n in (1, 3, 6):
+                yield {"side": side, "ping": 30, "streams": [{"events": evs(chr(97 + k), n), "charset": "utf-8", "delays": [0] * n} for k in range(n_streams)]}
+        # different charsets, sources and lengths; pings interleaved
+        src = (["agen", "aiterable", "aiterator"] if side == "asgi" else ["gen", "list", "iterable"])
+        yield {"side": side, "ping": unit, "streams": [
+            {"events": evs("a", 4, event="\xe9"), "charset": "utf-8", "delays": [0, unit * 1.5, 0, unit * 2.5], "source": src[0]},
+            {"events": evs("b", 2, event="\xe9"), "charset": "latin-1", "delays": [0, 0], "source": src[1]},
+            {"events": evs("c", 5, event="\u4e2d"), "charset": "gbk", "delays": [unit * 2.5, 0, 0, 0, unit * 1.5], "source": src[2], "tail_delay": unit * 1.5}]}
+    # one slow and one fast client on the same loop
+    yield {"side": "asgi", "ping": 1.0, "streams": [
+        {"events": evs("s", 5), "charset": "utf-8", "delays": [0] * 5, "send_delay": 2.5},
+        {"events": evs("f", 5), "charset": "utf-8", "delays": [0, 0.25, 0.25, 1.0, 0]}]}
+    # more open streams than the shared relay pool of the WSGI response has threads (10): the late ones only see pings
+    # until a relay thread becomes free, then their events
+    for n_streams in (11, 12):
+        yield {"side": "wsgi", "ping": 0.02, "streams": [{"events": evs(f"s{k}-", 3), "charset": "utf-8", "delays": [0, 0, 0], "source": "list" if k % 2 else "gen"} for k in range(n_streams)]}
+
+
+_FIELD_SPECIALS = [" ", "  ", ":", ": ", "\t", "\x0b", "\x0c", "\x1c", "\x1d", "\x1e", "\x1f", "\x85", "\u2028", "\u2029", "\ufeff", "\xa0", "\u3000", "\x7f",
+                   "\x01", "\xe9", "-", "0", "data", "data: x", "retry: 5", "id", "message"]
+
+
+def field_cases():
+    for sp in _FIELD_SPECIALS:
+        for v in (sp, sp + "a", "a" + sp, "a" + sp + "b", sp + sp, sp + "a" + sp):
+            yield {"events": [{"event": v, "data": "d"}, {"data": "next"}], "charset": "utf-8", "pings": [0]}
+            yield {"events": [{"id": v, "data": "d"}, {"data": "next"}, {"id": "", "data": "reset"}], "charset": "utf-8", "pings": [0, 1]}
+            yield {"events": [{"retry": 1, "id": v, "event": v}, {"data": "d"}], "charset": "utf-8", "pings": []}
+
+
+_TEXTS = [
+    "e\u0301", "\xe9", "\u212b", "\u2126", "\ufb01", "\u1100\u1161", "\u1e9b\u0323", "\uff76\uff9e", "\u0130", "\xdf", "\u01c5", "\u0345", "\u03c2",
+    "\u200b", "\u200d", "\u200e", "\u202e", "\xad", "\u2060", "\u180e", "\ufffd", "\ufffe", "\uffff", "\ud7ff", "\ue000", "\U0001f468\u200d\U0001f469",
+    "\U0010ffff", "\U00010000", "\u0300", "\u2003", "\u3000", "\xa0", "\u1680", "\x80", "\x9f", "\x1f", "\x7f", "\t", "\u8c48", "\u4e2d\u6587", "\uff21",
+    "\u3042\u3099", "\u0410\u0411", "\\", "~", "\xa5", "\u203e", "\u20ac",
+]
+_TEXT_CHARSETS = ["utf-8", "latin-1", "cp1252", "koi8-r", "gbk", "gb18030", "big5", "shift_jis", "euc-jp"]
+
+
+def text_cases():
+    for t in _TEXTS:
+        datas = [t, t + "x", "x" + t, "a\n" + t + "\nb", t + "\r" + t, "a " + t + " \r\n " + t]
+        single = "\x00" not in t
+        for charset in _TEXT_CHARSETS:
+            if not encodable(t, charset):
+                continue
+            for d in datas:
+                yield {"events": [{"data": d}], "charset": charset, "pings": []}
+            if single:
+                yield {"events": [{"event": t, "id": t, "data": t}, {"data": "next"}, {"event": "x" + t, "id": t + "x", "data": "third"}], "charset": charset, "pings": [0]}
+
+
+def same_dict_cases():
+    """One dict object yielded several times: every yield is an event of its own."""
+    tick = {"id": "1", "event": "e", "retry": 5, "data": "tick\ntock"}
+    plain = {"data": "x"}
+    accent = {"event": "\xe9", "data": "\xe0 \r b"}
+    idonly = {"id": "9"}
+    other, third = {"data": "other"}, {"id": "2", "data": "third"}
+    shapes = []
+    for ev in (tick, plain, accent):
+        for n in (2, 3, 4):
+            shapes.append(([ev] * n, [0] * n))
+        shapes.append(([ev, other, ev, third, ev], [0, 1, 0, 3, 0]))
+        shapes.append(([other, ev, ev, third, other], [0, 1, 1, 3, 0]))
+    shapes.append(([idonly, idonly, plain, idonly, plain], [0, 0, 2, 0, 2]))
+    shapes.append(([{}, {}, plain, {}], [0, 0, 2, 0]))
+    for events, same_as in shapes:
+        events = [dict(ev) for ev in events]
+        charset = "latin-1" if any("\xe9" in str(ev.get("event", "")) for ev in events) else "utf-8"
+        n = len(events)
+        yield {"events": events, "same_as": same_as, "charset": charset, "pings": []}
+        yield {"events": events, "same_as": same_as, "charset": charset, "pings": list(range(n - 1))}
+        for side, kinds in (("wsgi", ["gen", "list", "tuple", "iterator", "map"]), ("asgi", ASYNC_KINDS)):
+            for kind in kinds:
+                yield {"side": side, "source": kind, "events": events, "same_as": same_as, "charset": charset, "delays": [0] * n, "ping": 30}
+            # a ping before every yield (the relay holds the object while the producer waits)
+            unit = 0.05 if side == "wsgi" else 1.5
+            for kind in (["gen", "iterator"] if side == "wsgi" else ["agen", "aiterator"]):
+                if n <= 3 or kind in ("gen", "agen"):
+                    yield {"side": side, "source": kind, "events": events, "same_as": same_as, "charset": charset, "delays": [unit] * min(n, 3) + [0] * max(0, n - 3),
+                           "ping": unit * 0.4, "tail_delay": unit if n == 2 else 0}
+    # the client is slower than the producer: the object waits in the relay while the producer already yields it again
+    for n in (2, 4):
+        yield {"side": "asgi", "events": [dict(tick)] * n, "same_as": [0] * n, "charset": "utf-8", "delays": [0] * n, "ping": 1.0, "send_delay": 2.5}
+        yield {"side": "wsgi", "events": [dict(tick)] * n, "same_as": [0] * n, "charset": "utf-8", "delays": [0] * n, "ping": 0.02, "stalls": {"1": 0.15}}
+
+
+def big_cases():
+    breaks = ["\n", "\r", "\r\n"]
+    for n in (257, 300, 1000, 5000):
+        yield {"events": [{"data": "\n".join(f"line {i}" for i in range(n))}], "charset": "utf-8", "pings": []}
+        yield {"events": [{"id": "1", "data": "".join(("" if i % 7 == 3 else f"l{i}") + breaks[i % 3] for i in range(n)) + "end"}, {"data": "next"}], "charset": "utf-8", "pings": [0]}
+    for n in (8191, 8192, 8193, 16384, 16385, 65537, 200000):
+        yield {"events": [{"data": "x" * n}], "charset": "utf-8", "pings": []}
+        yield {"events": [{"event": "e", "data": "a\n" + "\xe9" * n + "\r\nb"}, {"data": "y" * n + " "}], "charset": "latin-1" if n % 2 else "utf-8", "pings": [0]}
+    yield {"events": [{"event": "n" * 10000, "id": "i" * 10000, "data": "d"}, {"data": "next"}], "charset": "utf-8", "pings": []}
+    for side in ("asgi", "wsgi"):
+        n = 60
+        yield {"side": side, "events": [{"id": str(i), "data": f"event-{i}"} if i % 5 else {"event": "e", "data": f"event\r{i}"} for i in range(n)], "charset": "utf-8", "delays": [0] * n, "ping": 30}
+        yield {"side": side, "events": [{"data": "\n".join(f"line {i}" for i in range(600))}, {"data": "z" * 70000}, {"data": "end"}], "charset": "utf-8", "delays": [0, 0, 0], "ping": 30}
+
+
 def flow_fixed_cases():
     for side in ("asgi", "wsgi"):
+        # the constructor defaults: no charset=, no ping_interval= (utf-8, 3 s), alone and with the other optional arguments
+        for extra in ({}, {"headers": {"x-extra": "1"}}, {"status": 200}):
+            yield side, {"events": [{"id": "1", "event": "\xe9v", "data": "d\xe9faut \u4e2d"}, {"data": "second"}], "charset": "utf-8", "delays": [0, 4.5 if side == "asgi" else 0], "ping": 3, "defaults": True, **extra}
         yield side, {"events": [{}, {"data": "after-empty"}], "charset": "utf-8", "delays": [0, 0], "ping": 30}
         yield side, {"events": [{"data": "a"}, {}, {"retry": 5}, {"data": "b", "event": "e"}], "charset": "latin-1", "delays": [0, 0, 0, 0], "ping": 30}
         yield side, {"events": [{"event": "\xe9v", "id": "\xfc", "data": "\xe0"}], "charset": "latin-1", "delays": [0], "ping": 30}
@@ -362,6 +877,16 @@ def run(rec, only=None):
         core.drive_cases(rec, side, [case], oracle_asgi if side == "asgi" else oracle_wsgi)
     core.drive_cases(rec, "sep", sep_cases(), oracle_block)
     rec.exhaustive["sep"] = True
+    core.drive_cases(rec, "fields", field_cases(), oracle_block)
+    rec.exhaustive["fields"] = True
+    core.drive_cases(rec, "text", text_cases(), oracle_block)
+    core.drive_cases(rec, "big", big_cases(), oracle_any)
+    core.drive_cases(rec, "same_dict", same_dict_cases(), oracle_any)
+    core.drive_cases(rec, "iterables", iterable_cases(), oracle_flow)
+    core.drive_cases(rec, "asgi_slow", asgi_slow_cases(), oracle_asgi)
+    core.drive_cases(rec, "concurrent", concurrent_cases(), oracle_concurrent)
+    for k in ("text", "big", "same_dict", "iterables", "asgi_slow", "concurrent"):
+        rec.exhaustive[k] = True
     core.drive_hypothesis(rec, "block", block_case(), oracle_block, 2500 if quick else 60000)
     core.drive_hypothesis(rec, "asgi", flow_case("asgi"), oracle_asgi, 600 if quick else 15000, seed_offset=1)
     core.drive_hypothesis(rec, "wsgi", flow_case("wsgi"), oracle_wsgi, 400 if quick else 8000, seed_offset=2)
